@@ -27,7 +27,7 @@ func registerC08() {
 		Rule: "a history is a PRNG sequence of 40-200 calls drawn from Decode (8 option sets), DecodeChained, CheckIntegrity (both modes), DecodeHeader, DecodeHeaderAndFileID, " +
 			"Header.MarshalJSON, Encode of API-built Files, Encode of decoded Files (both byte orders), Encode into a writer that fails part-way and Encode of a File with an un-encodable string over a pool of device files, model streams (incl. every accumulated " +
 			"component source) and API-built Files; each history runs in its own process; after every call a digest of the result (canonical content / bytes written / error text) " +
-			"is compared with (a) an immediate repetition of the call and (b) the digest of the same call made FIRST in a fresh process (one process per distinct call); every successful Encode of an API-built File is followed by an Encode of an identical File into a buffer that already holds the first output, which must append the same bytes and leave the earlier ones alone. " +
+			"is compared with (a) an immediate repetition of the call and (b) the digest of the same call made FIRST in a fresh process (one process per distinct call); some Decode calls overwrite every number and slice element of the File they got back before the next call is made; every successful Encode of an API-built File is repeated on the same File value (same bytes) and followed by an Encode of an identical File into a buffer that already holds the first output, which must append the same bytes and leave the earlier ones alone. " +
 			"Non-trivial: a call preceded by at least one other call whose digest was compared with its fresh-process baseline; distinct by (history, position)",
 		Assume: []string{
 			"record.distance of records whose compressed_speed_distance expands is canonicalised through the defect predictor: a value equal to the prediction of known findings F5/F6 is replaced by the reference value and counted as KNOWN-FINDING; any other value stays and shows up as a digest mismatch",
@@ -256,6 +256,10 @@ func c08Call(id string, known map[string]int) (digest string, err error) {
 			}
 			f, e := fit.Decode(bytes.NewReader(p.inputs[arg(1)]), opts...)
 			out = canonContent(f, known) + "|" + lib.ErrText(e)
+			if m&8 != 0 {
+				// the caller owns the returned File: overwrite every number and slice element in it
+				lib.ScribbleFile(f)
+			}
 		case "DC":
 			fs, e := fit.DecodeChained(bytes.NewReader(p.chains[arg(1)]))
 			for _, f := range fs {
@@ -285,8 +289,14 @@ func c08Call(id string, known map[string]int) (digest string, err error) {
 			e := fit.Encode(&buf, f, archOrder(arg(2)))
 			out = h64(buf.Bytes()) + "|" + lib.ErrText(e)
 			if e == nil {
+				// the same File value once more: Encode must not have changed it
+				var again bytes.Buffer
+				if e3 := fit.Encode(&again, f, archOrder(arg(2))); e3 != nil || !bytes.Equal(again.Bytes(), buf.Bytes()) {
+					callErr = fmt.Errorf("Encode of the same File value a second time: error %v, %d bytes where the first call wrote %d, or different bytes", e3, again.Len(), buf.Len())
+				}
 				g, de := fit.Decode(bytes.NewReader(buf.Bytes()))
 				out += "|" + canonContent(g, known) + "|" + lib.ErrText(de)
+				lib.ScribbleFile(g)
 				// Encode writes identical bytes for identical Files.
 				// The second call appends to a buffer that already holds the
 				// first output (a destination with a history of its own).
@@ -339,7 +349,7 @@ func c08RandomCall(rng *lib.Rand) string {
 	p := c08Pool()
 	switch rng.Intn(12) {
 	case 0, 1, 2, 3:
-		return fmt.Sprintf("D:%d:%d", rng.Intn(len(p.inputs)), []int{0, 0, 0, 7, 2, 4, 1, 3}[rng.Intn(8)])
+		return fmt.Sprintf("D:%d:%d", rng.Intn(len(p.inputs)), []int{0, 0, 0, 7, 2, 4, 1, 3, 8, 15}[rng.Intn(10)])
 	case 4:
 		return fmt.Sprintf("DC:%d", rng.Intn(len(p.chains)))
 	case 5:
